@@ -12,6 +12,7 @@ META = dict(
 
 
 def histories(rnd, count, nops, maxsize):
+    yield ['space 4'] + ['bigadd %d %d' % (u, n) for u in (0, 1, 5, 4096) for n in (1, 10, 64)]       # more than 4 GiB of free space
     for _ in range(count):
         size = rnd.choice([1, 2, 3, 7, 8, 16, 33, maxsize])
         sc = ['space %d' % size] if rnd.random() < 0.7 else ['use %d' % size]
